@@ -148,6 +148,17 @@ def run(ctx):
             r.ok("prefix", "`**/` prepended only when not anchored ∧ no `/` in the line ∧ no `**/` already", fn=f)
         else:
             r.bad("prefix", "the implicit `**/` prefix is added to an anchored pattern or one containing `/`", fn=f, construct="prefix")
+        # the helper deciding "already starts with a `**/` component": `**/x` or exactly `**`, nothing looser
+        hd = facts.fn(GLOB + "::has_doublestar_prefix")
+        tail = H.tail_expr(hd.hir)
+        atoms_ = ['self.actual.starts_with("**/")', '(self.actual Eq "**")']
+        ok, detail = H.equivalent(tail, atoms_, lambda v: v[atoms_[0]] or v[atoms_[1]])
+        if ok:
+            r.ok("prefix|helper", 'has_doublestar_prefix ≡ starts_with("**/") ∨ == "**"', fn=hd)
+        else:
+            r.bad("prefix|helper", "has_doublestar_prefix is no longer `starts_with(\"**/\") || == \"**\"` (%s): a slash-free "
+                  "pattern such as `**.tmp` would lose its implicit `**/` prefix and stop matching below the ignore file's "
+                  "directory" % detail, fn=hd, construct="prefix")
         # comments / empty lines
         add = f.calls_to("globset::GlobSetBuilder::add")
         push = [c for c in f.calls_to("alloc::vec::Vec::push") if mentions_field(eb.operand(c.args[0]), GIB, "globs")]
